@@ -85,11 +85,13 @@ class Call:
 
 class Ob:
     def __init__(self, name, kind, inputs, calls, assume, goal, ub=False, portfolio=None, timeout=None,
-                 natives=None, note="", extra_asserts=(), expect_unsat=True):
+                 natives=None, note="", extra_asserts=(), expect_unsat=True, abstract=False, fallback=None,
+                 comm_lemmas=True):
         self.name, self.kind, self.inputs, self.calls = name, kind, list(inputs), list(calls)
         self.assume, self.goal, self.ub = assume, goal, ub
         self.portfolio, self.timeout, self.natives, self.note = portfolio, timeout, natives, note
         self.extra_asserts = list(extra_asserts)
+        self.abstract, self.fallback, self.comm_lemmas = abstract, fallback, comm_lemmas
         self.outcome = None
         self.query = None
         self.verdict = None      # 'discharged' | 'violation' | 'known' | 'inconclusive' | 'witnessed' | 'no-cex'
@@ -204,6 +206,15 @@ class Run:
         asserts.extend(ob.extra_asserts)
         if extra is not None:
             asserts.append(extra)
+        if ob.comm_lemmas and any((c.opts is not None and c.opts.mul_uf) for c in ob.calls):
+            # commutativity instances for every abstracted product that occurs (valid for bvmul)
+            if not E.lemma_selftest():
+                raise Unsupported("multiplication lemma templates failed their self-test")
+            for app in E.uf_apps(asserts):
+                x, y = app.children()
+                if not x.eq(y):
+                    asserts.append(app == app.decl()(y, x))
+                asserts.extend(E.mul_lemmas(app))
         if self.pin:
             for c in ob.inputs:
                 if c.decl().name() in self.pin:
@@ -280,32 +291,52 @@ class Run:
     def execute(self):
         workdir = os.path.join(B.BUILD, "%s_smt" % self.pid)
         os.makedirs(workdir, exist_ok=True)
-        queries, owners = [], []
-        for ob in self.obs:
-            try:
-                ks = self.known_for(ob) if ob.kind in ("verify", "hunt") else []
-                if ks:
-                    excl = z3.Not(z3.Or([self.region(k, ob) for k in ks]))
-                    queries.append(self.build_query(ob, extra=excl))
-                    owners.append((ob, "main"))
-                    for i, k in enumerate(ks):
-                        queries.append(self.build_query(ob, extra=self.region(k, ob), tag="#known%d" % i))
-                        owners.append((ob, ("known", k)))
+        todo = list(self.obs)
+        self.solve_wall = 0.0
+        rounds = 0
+        while todo and rounds < 3:
+            rounds += 1
+            queries, owners = [], []
+            for ob in todo:
+                try:
+                    ks = self.known_for(ob) if ob.kind in ("verify", "hunt") else []
+                    if ks:
+                        excl = z3.Not(z3.Or([self.region(k, ob) for k in ks]))
+                        queries.append(self.build_query(ob, extra=excl))
+                        owners.append((ob, "main"))
+                        if not ob.abstract:
+                            for i, k in enumerate(ks):
+                                queries.append(self.build_query(ob, extra=self.region(k, ob), tag="#known%d" % i))
+                                owners.append((ob, ("known", k)))
+                    else:
+                        queries.append(self.build_query(ob))
+                        owners.append((ob, "main"))
+                except (Unsupported, B.BuildError) as e:
+                    ob.verdict, ob.detail = "inconclusive", "%s: %s" % (type(e).__name__, str(e)[:1500])
+            t = time.time()
+            outs = S.solve_all(queries, workdir)
+            self.solver_time += sum(o.t for o in outs)
+            self.solve_wall += time.time() - t
+            nxt = []
+            for q, (ob, role), out in zip(queries, owners, outs):
+                if role == "main":
+                    ob.outcome, ob.query = out, q
+                    if ob.abstract and out.status != "unsat":
+                        # the abstraction (uninterpreted products/quotients) is only sound for `unsat`
+                        fb = ob.fallback() if callable(ob.fallback) else ob.fallback
+                        if fb is None:
+                            ob.verdict, ob.detail = "inconclusive", "abstract query %s and no precise fallback" % out.status
+                        else:
+                            ob.verdict, ob.detail = "refined", "abstract query was %s; decided by %s" % (out.status, fb.name)
+                            fb.name = ob.name + "#precise"
+                            idx = self.obs.index(ob)
+                            self.obs.insert(idx + 1, fb)
+                            nxt.append(fb)
+                        continue
+                    self.judge(ob, out)
                 else:
-                    queries.append(self.build_query(ob))
-                    owners.append((ob, "main"))
-            except (Unsupported, B.BuildError) as e:
-                ob.verdict, ob.detail = "inconclusive", "%s: %s" % (type(e).__name__, str(e)[:1500])
-        t = time.time()
-        outs = S.solve_all(queries, workdir)
-        self.solver_time += sum(o.t for o in outs)
-        self.solve_wall = time.time() - t
-        for q, (ob, role), out in zip(queries, owners, outs):
-            if role == "main":
-                ob.outcome, ob.query = out, q
-                self.judge(ob, out)
-            else:
-                self.judge_known(ob, role[1], out)
+                    self.judge_known(ob, role[1], out)
+            todo = nxt
         return self.finish()
 
     def judge(self, ob, out):
@@ -393,7 +424,7 @@ class Run:
     def write_evidence(self):
         os.makedirs(EVID, exist_ok=True)
         obs = self.obs
-        ver = [o for o in obs if o.kind == "verify"]
+        ver = [o for o in obs if o.kind == "verify" and o.verdict != "refined"]
         hunts = [o for o in obs if o.kind == "hunt"]
         wit = [o for o in obs if o.kind == "witness"]
         recs = []
